@@ -149,7 +149,11 @@ Fixpoint filter_by_revision (evs : list event) (rev : N) : list event :=
 Definition filter_by_prefix (evs : list event) (p : bytes) : list event :=
   filter (fun e => has_prefix p (e_key e)) evs.
 
-(* catchUpEvents: batch size; None = integer divide by zero (resultChanLength = 1) *)
+(* catchUpEvents: batch size; None = the Go code panics:
+   - resultChanLength = 1: integer divide by zero;
+   - resultChanLength = 0: Go computes len / -1 = -len, and the first `events[0:batchSize]` with the negative size
+     panics (slice bounds out of range); here p_out - 1 truncates to 0 and gives None as well: the same outcome.
+   Neither can happen under fits_params (2 <= p_out), which holds for the constants of the code. *)
 Definition catchup_batch_size (pa : params) (len : N) : option N :=
   if p_out pa * p_batch pa <? len then
     (if p_out pa - 1 =? 0 then None else Some (len / (p_out pa - 1)))
